@@ -2,6 +2,13 @@
 
 package dag
 
+import (
+	"context"
+	"errors"
+
+	"github.com/DavidGamba/go-getoptions"
+)
+
 // C13: a task starts only after all its dependencies have finished successfully.
 
 // All shapes of 3 tasks, every outcome of every task, every completion order.
@@ -44,5 +51,46 @@ func VerifC13_SkipDiamonds() {
 	vObserve("failed", err != nil)
 	s.orderingAsserts()
 	vAssert("skips-alone-do-not-fail-the-run", err == nil)
+	vReach("ran")
+}
+
+// Retries with SYMBOLIC numbers (decided by the solver): a task that fails its
+// first F attempts, with R retries allowed, is entered exactly min(F,R)+1
+// times, one attempt after the other, and Run fails exactly when F > R.
+func VerifC13_RetriesSymbolic() {
+	vNativeReset()
+	R := vInt("R", 0, 1000)
+	F := vInt("F", 0, 1000)
+	vAssume(R <= 4) // unwind bound of the retry loop
+	attempts := 0
+	inside := 0
+	overlapped := false
+	t := NewTask("t", func(ctx context.Context, opt *getoptions.GetOpt, args []string) error {
+		attempts++
+		inside++
+		if inside > 1 {
+			overlapped = true
+		}
+		vYield(0)
+		inside--
+		if attempts <= F {
+			return errors.New("fails")
+		}
+		return nil
+	})
+	g := NewGraph("g")
+	g.AddTask(t)
+	g.TaskRetries(t, R)
+	vPhase("run")
+	err := g.Run(vNewContext(), nil, nil)
+	vObserve("attempts", attempts)
+	want := F + 1
+	if F > R {
+		want = R + 1
+	}
+	vAssert("symbolic/attempts", attempts == want)
+	vAssert("symbolic/at-most-retries-plus-one", attempts <= R+1)
+	vAssert("symbolic/sequential", !overlapped)
+	vAssert("symbolic/fails-iff-more-failures-than-retries", (err != nil) == (F > R))
 	vReach("ran")
 }
